@@ -357,6 +357,7 @@ pub fn generate<M: Machine>(verif_seed: u64, run: u64) -> Trace {
         verif_seed,
         run_index: run,
         exact_data: false,
+        isolated: false,
         tapes,
         events: Vec::new(),
         knobs: json!({"p_checkpoint": p_ckpt, "p_crash": p_crash, "workers": n_workers}),
